@@ -1278,6 +1278,19 @@ impl EnumSpec for MatchCodec {
                 }
             }
         }
+        // a match the codec must refuse in the middle of a single-writer history: (valid, out-of-range, valid) — the refused
+        // call must leave nothing behind in the caller's BitWriter
+        let invalid: Vec<Match> = reps(tier).into_iter().filter(|m| m.validate().is_err()).collect();
+        for a in p.iter().step_by(3) {
+            for x in &invalid {
+                if !f(MatchCase { api: "single".into(), matches: vec![a.clone(), x.clone(), a.clone()] }) {
+                    return;
+                }
+                if !f(MatchCase { api: "single".into(), matches: vec![x.clone(), a.clone()] }) {
+                    return;
+                }
+            }
+        }
     }
     fn run(&self, c: &MatchCase) -> Outcome {
         let kinds: Vec<&str> = c.matches.iter().map(kind_name).collect();
@@ -1286,17 +1299,28 @@ impl EnumSpec for MatchCodec {
             // all matches on one writer, read back from one reader, bit counts must agree
             let mut w = BitWriter::new();
             let mut bits = Vec::new();
-            for m in &c.matches {
+            // a refused match is left out and the caller goes on with the SAME writer: a refusal must leave nothing behind
+            let mut accepted: Vec<(usize, &Match)> = Vec::new();
+            let mut refused = 0usize;
+            for (i, m) in c.matches.iter().enumerate() {
                 match catch(|| encode_match(m, &mut w)) {
-                    Ok(Ok(b)) => bits.push(b),
-                    Ok(Err(_)) => return Outcome::skip(if in_range { "encode_err_in_range" } else { "encode_err_out_of_range" }),
+                    Ok(Ok(b)) => {
+                        bits.push(b);
+                        accepted.push((i, m));
+                    }
+                    Ok(Err(_)) => refused += 1,
                     Err(p) => return Outcome::skip(&format!("encode_panic@{}", p.class)),
                 }
             }
+            if accepted.is_empty() {
+                return Outcome::skip(if in_range { "encode_err_in_range" } else { "encode_err_out_of_range" });
+            }
+            let after_refusal = if refused > 0 { "after_refused_call" } else { "" };
             let buf = w.finish();
             let mut r = BitReader::new(&buf);
-            for (i, m) in c.matches.iter().enumerate() {
-                let cls = |sym: &str| join(&["decode_match", kinds[i], sym]);
+            for (j, (i, m)) in accepted.iter().enumerate() {
+                let (i, m) = (*i, *m);
+                let cls = |sym: &str| if after_refusal.is_empty() { join(&["decode_match", kinds[i], sym]) } else { join(&["decode_match", kinds[i], sym, after_refusal]) };
                 match catch(|| decode_match(&mut r)) {
                     Err(p) => return enumr::fail("match_roundtrip", cls(&format!("decode_panic@{}", p.class)), format!("{m:?}: {}", p.detail)),
                     Ok(Err(e)) => return enumr::fail("match_roundtrip", cls(&format!("decode_err({})", norm_msg(&e.to_string()))), format!("{m:?} encoded as {}: Err({e})", hex(&buf))),
@@ -1304,11 +1328,14 @@ impl EnumSpec for MatchCodec {
                         if &d != m {
                             return enumr::fail("match_roundtrip", cls("wrong_match"), format!("{m:?} encoded as {} decoded as {d:?}", hex(&buf)));
                         }
-                        if used != bits[i] {
-                            return enumr::fail("match_roundtrip", cls("bit_count"), format!("{m:?}: wrote {} bits, read {used}", bits[i]));
+                        if used != bits[j] {
+                            return enumr::fail("match_roundtrip", cls("bit_count"), format!("{m:?}: wrote {} bits, read {used}", bits[j]));
                         }
                     }
                 }
+            }
+            if refused > 0 {
+                return Outcome::pass("ok|single|refused_matches_left_out");
             }
             return Outcome::pass(if in_range { "ok|single" } else { "ok|single|out_of_range_accepted" });
         }
